@@ -244,6 +244,21 @@ impl<T: GseDecapMemory, C: CrcCalculator, MHEM: MandatoryHeaderExtensionManager>
         self.last_label = None;
     }
 
+    /// Give a storage buffer back to the memory when a packet is rejected.
+    /// If the memory refuses it (e.g. the user refilled it in the meantime), the buffer is handed
+    /// to the caller inside the memory error instead of being lost.
+    fn reject_and_give_back(
+        &mut self,
+        storage: Box<[u8]>,
+        error: DecapError,
+        consumed_len: usize,
+    ) -> (DecapError, usize) {
+        match self.memory.provision_storage(storage) {
+            Ok(()) => (error, consumed_len),
+            Err(err) => (DecapError::ErrorMemory(err), consumed_len),
+        }
+    }
+
     /// GSE decapsulation of the payload from a buffer
     ///
     /// The function decap reads the buffer to extract a packet.
@@ -428,8 +443,7 @@ impl<T: GseDecapMemory, C: CrcCalculator, MHEM: MandatoryHeaderExtensionManager>
         // check buffer size
         if pdu_buffer_len + label_len + header_ext_len + PROTOCOL_LEN < gse_len {
             self.last_label = None;
-            self.memory.provision_storage(pdu_buffer).unwrap();
-            return Err((DecapError::ErrorSizePduBuffer, pkt_len));
+            return Err(self.reject_and_give_back(pdu_buffer, DecapError::ErrorSizePduBuffer, pkt_len));
         }
         let calculed_pdu_len = gse_len - label_len - header_ext_len - PROTOCOL_LEN;
 
@@ -681,8 +695,7 @@ impl<T: GseDecapMemory, C: CrcCalculator, MHEM: MandatoryHeaderExtensionManager>
         // check pdu buffer size (before writing into it)
         if pdu_buffer.len() < calculed_pdu_len {
             self.last_label = None;
-            self.memory.provision_storage(pdu_buffer).unwrap();
-            return Err((DecapError::ErrorSizePduBuffer, pkt_len));
+            return Err(self.reject_and_give_back(pdu_buffer, DecapError::ErrorSizePduBuffer, pkt_len));
         }
 
         // read pdu
@@ -730,8 +743,7 @@ impl<T: GseDecapMemory, C: CrcCalculator, MHEM: MandatoryHeaderExtensionManager>
         let pdu_buffer_len = pdu_buffer.len();
 
         if pdu_buffer_len < calculed_pdu_len {
-            self.memory.provision_storage(pdu).unwrap();
-            return Err((DecapError::ErrorSizePduBuffer, pkt_len));
+            return Err(self.reject_and_give_back(pdu, DecapError::ErrorSizePduBuffer, pkt_len));
         }
         pdu_buffer[..calculed_pdu_len].copy_from_slice(&buffer[offset..offset + calculed_pdu_len]);
 
@@ -779,8 +791,7 @@ impl<T: GseDecapMemory, C: CrcCalculator, MHEM: MandatoryHeaderExtensionManager>
         let pdu_buffer_len = pdu_buffer.len();
 
         if pdu_buffer_len < calculed_pdu_len {
-            self.memory.provision_storage(pdu).unwrap();
-            return Err((DecapError::ErrorSizePduBuffer, pkt_len));
+            return Err(self.reject_and_give_back(pdu, DecapError::ErrorSizePduBuffer, pkt_len));
         }
 
         pdu_buffer[..calculed_pdu_len].copy_from_slice(&buffer[offset..offset + calculed_pdu_len]);
@@ -808,8 +819,7 @@ impl<T: GseDecapMemory, C: CrcCalculator, MHEM: MandatoryHeaderExtensionManager>
 
         let total_len_received = (pdu_len + PROTOCOL_LEN + first_label_len) as u16;
         if decap_context.total_len != total_len_received {
-            self.memory.provision_storage(pdu).unwrap();
-            return Err((DecapError::ErrorTotalLength, pkt_len));
+            return Err(self.reject_and_give_back(pdu, DecapError::ErrorTotalLength, pkt_len));
         }
 
         let calculted_crc = self.crc_calculator.calculate_crc32(
@@ -820,8 +830,7 @@ impl<T: GseDecapMemory, C: CrcCalculator, MHEM: MandatoryHeaderExtensionManager>
         );
 
         if calculted_crc != received_crc {
-            self.memory.provision_storage(pdu).unwrap();
-            return Err((DecapError::ErrorCrc, pkt_len));
+            return Err(self.reject_and_give_back(pdu, DecapError::ErrorCrc, pkt_len));
         }
 
         Ok((DecapStatus::CompletedPkt(pdu, metadata), pkt_len))
